@@ -96,16 +96,20 @@ CHECKS.append({
 CHECKS.append({
     "property_id": "C17",
     "category": "proof",
-    "technique": "Lean 4 proofs of the plan checker, the exact optimum (search over residual demands) and the dual-bound "
-                 "argument + those verified procedures run on every plan solve_cg/solve_bp return + Rat mirror of solve_cg",
-    "text": "plan_checker (checkPlan decides exactly: patterns fit / are listed columns, demands met, objective = rolls), "
-            "cs_optimum_correct (minRolls is the true minimum number of rolls), dual_bound and optimal_claim_sound (a "
-            "dual-feasible y, decided over all patterns by a verified bounded-knapsack DP, gives ceil(y.d) <= optimum, so the "
-            "OPTIMAL rule of the repaired code is sound). Every plan returned with a usable status is checked on each explored "
-            "input, OPTIMAL is compared with the proved optimum, and the Rat mirror of solve_cg must return the same plan.",
-    "note": "The search algorithms carry no all-input proof (master-LP mirror certifies is open, solve_bp's tree is not "
-            "modelled): verdicts are per instance from proved checkers. solve_cg mirror in exact rationals vs IEEE doubles. "
-            "max_nodes capped at 100 and 15 s per call in the harness.",
+    "technique": "Lean 4 proofs of the plan checker, the exact optimum and the dual-bound argument, plus all-input theorems "
+                 "about exact-rational mirrors of solve_cg and solve_bp (validity, status rule, LP value = dual value); those "
+                 "verified procedures run on every plan the real solvers return; mirror correspondence",
+    "text": "plan_checker, cs_optimum_correct (minRolls is the true minimum), dual_bound, optimal_claim_sound; for the "
+            "mirrors: cg_mirror_valid (usable status => plan passes checkPlan, objective = rolls, patterns fit), "
+            "bp_status_rule (OPTIMAL only against the converged root bound, for every node solver), "
+            "master_lp_value_is_dual_value, master_lp_duals_eps_feasible, cg_mirror_optimal_of_duals / "
+            "bp_mirror_optimal_of_duals (OPTIMAL + decidable side conditions evaluated per input => true minimum). Every plan "
+            "solve_cg / solve_bp return with a usable status is checked on each explored input, OPTIMAL is compared with the "
+            "proved optimum, and both mirrors must return the same status and plan (solve_bp R_trace skipped on exact "
+            "rational ties the code breaks by rounding noise).",
+    "note": "Not proved: that the mirrored simplex reaches an LP optimum ([S]; eliminations below eps are skipped) - OPTIMAL "
+            "is proved minimal per input through the side conditions instead, which held on every explored input. Exact "
+            "rationals vs IEEE doubles. max_nodes capped at 100 and per-call limits in the harness.",
 })
 
 CHECKS.append({
